@@ -44,12 +44,18 @@ Definition cpt := @checkpoint value (chans value) gst ncp.
 Definition inf := @iinfo gst ninfo.
 Definition tex := @texec value ncp ninfo.
 Definition outc := @outcome value (chans value) gst ncp ninfo.
-Definition evt := (N * value * bool)%type.
+Definition evt := @event value.          (* events of the run loop: one per submitted task *)
+
+(* entries of the flat log kept in the environment *)
+Inductive lentry :=
+| LExec (k : N) (v : value) (ab : bool)   (* a lambda body ran: node, input, aborted (asked for a rerun)     *)
+| LPre (k : N)                            (* the state pre-handler of node k ran (nested graphs with state)  *)
+| LCall.                                  (* a call of the run starts                                       *)
 
 (* ---------- environment ---------- *)
 Record env := {
   e_att   : list (N * N);                 (* node -> number of body executions so far (whole run)        *)
-  e_log   : list evt;                     (* lambda executions of every level: (node, input, aborted)    *)
+  e_log   : list lentry;                  (* lambda executions and nested pre-handler runs of every level *)
   e_mod   : bool;                         (* the current call carries WithStateModifier                  *)
   e_sched : list (N * list (list N));     (* graph index -> collection orders of its successive eager
                                              task managers (observed; consumed one per loop entry)       *)
@@ -125,7 +131,7 @@ Definition lambda_exec (g : gspec) (k : N) (v : value) (e : env) : tex * env :=
   let a := match nlist_get k (e_att e) with Some a => a + 1 | None => 1 end in
   let ab := match nlist_get k (gs_rerun g) with Some l => memN a l | None => false end in
   ((if ab then TRerun else TDone (VMap [(k, v)])),
-   {| e_att := ainsert k a (e_att e); e_log := e_log e ++ [(k, v, ab)]; e_mod := e_mod e; e_sched := e_sched e |}).
+   {| e_att := ainsert k a (e_att e); e_log := e_log e ++ [LExec k v ab]; e_mod := e_mod e; e_sched := e_sched e |}).
 
 Section Seg.
   Variable exec : N -> option ncp -> value -> env -> tex * env.
@@ -160,6 +166,12 @@ Section Seg.
     let s := restore c in enter (with_gs s (sm (ls_gs s))) e.
 End Seg.
 
+(* the pre-handlers that ran in a segment of graph g (handlers exist only in a graph with state) *)
+Definition pres_of (g : gspec) (l : list evt) : list N :=
+  if gs_state g then map (@ev_key value) (filter (fun ev => negb (ev_skip ev)) l) else [].
+Definition log_pres (g : gspec) (l : list evt) (e : env) : env :=
+  {| e_att := e_att e; e_log := e_log e ++ map LPre (pres_of g l); e_mod := e_mod e; e_sched := e_sched e |}.
+
 Definition sm_of (e : env) : gst -> gst := if e_mod e then bump else (fun s => s).
 
 (* node bodies; [d] bounds the nesting depth *)
@@ -176,11 +188,12 @@ Fixpoint node_exec (d : nat) (F : list gspec) (g : gspec) (k : N) (cpo : option 
         match nth_error F j with
         | None => (TFail eUnknownNode, e)
         | Some sub =>
-          let '(o, _, e') :=
+          let '(o, l, e1) :=
             match cpo with
             | Some (NCP c) => seg_resumed (node_exec d' F sub) (N.of_nat j) sub (sm_of e) c e
             | None => seg_fresh (node_exec d' F sub) (N.of_nat j) sub v e
             end in
+          let e' := log_pres sub l e1 in
           (match o with
            | ODone r => TDone (VMap [(k, r)])              (* WithOutputKey(key) *)
            | OInterrupted i c => TSub (NCP c) (NInfo i)
@@ -205,11 +218,9 @@ Definition mod_at (mods : list bool) (k : nat) : bool :=
 Definition cobs := @call_obs value (chans value) gst ncp ninfo.
 
 (* what the options of call k change in the environment: the state modifier flag; a marker in the
-   flat execution log separates the calls (key 0 = START is never a lambda) *)
-Definition call_marker : evt := (0, VNil, false).
-Definition is_marker (ev : evt) : bool := let '(k, _, _) := ev in N.eqb k 0.
+   flat execution log separates the calls *)
 Definition tick_of (mods : list bool) (k : nat) (e : env) : env :=
-  {| e_att := e_att e; e_log := e_log e ++ [call_marker]; e_mod := mod_at mods k; e_sched := e_sched e |}.
+  {| e_att := e_att e; e_log := e_log e ++ [LCall]; e_mod := mod_at mods k; e_sched := e_sched e |}.
 Definition mods_of (mods : list bool) (k : nat) : gst -> gst := if mod_at mods k then bump else (fun s => s).
 
 (* the run driven through a store that keeps the checkpoint as it is (the byte store of the harness
@@ -224,12 +235,11 @@ Definition run_drive (F : list gspec) (with_id : bool) (mods : list bool) (x : v
           (tick_of mods) with_id max_resumes O (mods_of mods) None e
   end.
 
-(* the flat log cut at the call markers: one list of lambda executions per call *)
-Fixpoint split_log (l : list evt) (cur : list evt) (started : bool) : list (list evt) :=
+(* the flat log cut at the call markers: one list of entries per call *)
+Fixpoint split_log (l : list lentry) (cur : list lentry) (started : bool) : list (list lentry) :=
   match l with
   | [] => if started then [rev cur] else []
-  | ev :: l' =>
-    if is_marker ev then (if started then rev cur :: split_log l' [] true else split_log l' [] true)
-    else split_log l' (ev :: cur) started
+  | LCall :: l' => if started then rev cur :: split_log l' [] true else split_log l' [] true
+  | en :: l' => split_log l' (en :: cur) started
   end.
-Definition call_logs (e : env) : list (list evt) := split_log (e_log e) [] false.
+Definition call_logs (e : env) : list (list lentry) := split_log (e_log e) [] false.
